@@ -56,11 +56,18 @@ class ADrop(Mapping):
         self._d = d
         self._c = counter
 
+    def _log(self, k: Any) -> None:
+        # counter lists may carry an access log as their second element
+        if len(self._c) > 1:
+            self._c[1].append(k if isinstance(k, (str, int)) else repr(k))
+
     def __getitem__(self, k: Any) -> Any:
+        self._log(k)
         return wrap(self._d[k], self._c)
 
     async def __getitem_async__(self, k: Any) -> Any:
         self._c[0] += 1
+        self._log(k)
         await sched.Gate(("item", k))
         return wrap(self._d[k], self._c)
 
@@ -165,6 +172,23 @@ def make_env(kind: str, templates: dict[str, str], counter: list[int], root: str
     return Environment(loader=loader, **(env_kwargs or {}))
 
 
+VARIANTS = ["default", "strict", "autoescape", "falsy-strict", "autoescape+strict"]
+
+
+def env_variant(v: str) -> dict[str, Any]:
+    from liquid2 import FalsyStrictUndefined
+    from liquid2 import StrictUndefined
+
+    kw: dict[str, Any] = {}
+    if "autoescape" in v:
+        kw["auto_escape"] = True
+    if v.endswith("falsy-strict"):
+        kw["undefined"] = FalsyStrictUndefined
+    elif "strict" in v:
+        kw["undefined"] = StrictUndefined
+    return kw
+
+
 DICT_KINDS = ["dict", "gated", "caching", "caching-ns", "gated-caching", "gated-uptodate", "gated-stale", "gated-stale-slow"]
 FS_KINDS = ["fs", "caching-fs", "choice"]
 
@@ -217,6 +241,17 @@ ANALYSIS_ONLY: list[dict[str, str]] = [
 ]
 
 FIXTURES: list[tuple[str, dict[str, str], dict[str, Any]]] = [
+    # when-lists and and/or whose later operands are never needed, literal arguments that
+    # contain markup, conditions read from lazily fetched data
+    ("{% case day.name %}{% when 'Saturday', holiday.name %}weekend{% when nosuch or 'x' %}q{% else %}e{% endcase %}"
+     "{% if flags.a or flags.nosuch == 1 %}A{% elsif flags.b and flags.c %}B{% elsif flags.c %}C{% else %}D{% endif %}"
+     "{% unless flags.b or flags.zz %}U{% elsif flags.c %}V{% endunless %}",
+     {}, {"day": {"name": "Saturday"}, "flags": {"a": False, "b": False, "c": True}}),
+    ("{{ user.name | append: '<br>' }}{{ xs.items | map: 'v' | join: '<b>' }}{{ user.nick | default: '<i>n/a</i>' }}"
+     "{% render 'tags', sep: '</li><li>', items: xs.items %}{% with sep: '<wbr>' %}{{ sep }}{{ user.name }}{% endwith %}"
+     "{% include 'tags', sep: \"<hr class='x'>\", items: xs.items %}{{ '<p>' if user.name else '</p>' }}{{ \"<${user.name}>\" }}",
+     {"tags": "{% for i in items %}{{ i.v }}{{ sep }}{% endfor %}"},
+     {"user": {"name": "Tom & <Jerry>"}, "xs": {"items": [{"v": "a<"}, {"v": "b"}]}}),
     ("{% extends 'layouts/base.html' %}{% block content %}Hi {{ user.name }} {{ block.super }}{% endblock %}",
      {"layouts/base.html": "<{% block title %}{{ site.title }}{% endblock %}|{% block content %}base {{ user.id }}{% endblock %}>"},
      {"user": {"name": "Al", "id": 7}, "site": {"title": "T"}}),
@@ -293,13 +328,20 @@ class Work:
 
     # -------------------------------------------------------------- differential
     def differential(self, source: str, templates: dict[str, str], data: dict[str, Any], kind: str,
-                     origin: str) -> None:
+                     origin: str, variant: str | None = None) -> None:
         ctx = self.ctx
-        cnt = [0]
+        if variant is None:
+            # the default configuration, and one of the others in rotation
+            self.differential(source, templates, data, kind, origin, "default")
+            self._rot = getattr(self, "_rot", 0) + 1
+            variant = VARIANTS[1 + self._rot % (len(VARIANTS) - 1)]
+        kw = env_variant(variant)
+        cnt: list[Any] = [0, []]
+        cnt_s: list[Any] = [0, []]
         root = self.fs_root(templates) if kind in FS_KINDS else None
-        env_s = make_env(kind, templates, [0], root)
-        env_a = make_env(kind, templates, cnt, root)
-        d_s = lazy(copy.deepcopy(data), [0])
+        env_s = make_env(kind, templates, cnt_s, root, kw)
+        env_a = make_env(kind, templates, cnt, root, kw)
+        d_s = lazy(copy.deepcopy(data), cnt_s)
         d_a = lazy(copy.deepcopy(data), cnt)
         if kind == "caching-ns":
             d_s["site"] = d_a["site"] = "siteA"
@@ -307,15 +349,28 @@ class Work:
         asy = run_async(kind, lambda: env_a.from_string(source).render_async(**d_a))
         ctx.ev(2)
         ctx.count("sync_async_pairs")
+        ctx.count("sync_async_pairs:" + variant)
         ctx.seen("loader_kinds", kind)
         if sync[0] == "err":
             ctx.count("error_pairs")
         if cnt[0] or templates:
-            ctx.nt(source, sorted(templates.items()), repr(data), kind)
+            ctx.nt(source, sorted(templates.items()), repr(data), kind, variant)
+        vs = "" if variant == "default" else f"[{variant}]"
+        wit = {"op": "render", "source": source, "templates": templates, "data": data, "kind": kind, "variant": variant}
         if sync != asy:
-            key = f"render:{_diffkind(sync, asy)}@{origin}:{kind if kind in FS_KINDS else 'dict-like' if kind in ('dict', 'gated') else kind}"
-            ctx.violation(key, f"sync={_short(sync)} async={_short(asy)}",
-                          {"op": "render", "source": source, "templates": templates, "data": data, "kind": kind})
+            key = f"render{vs}:{_diffkind(sync, asy)}@{origin}:{kind if kind in FS_KINDS else 'dict-like' if kind in ('dict', 'gated') else kind}"
+            ctx.violation(key, f"sync={_short(sync)} async={_short(asy)}", wit)
+        elif cnt_s[1] != cnt[1]:
+            # same result, but the data was read differently: which items of lazily
+            # fetched objects are looked up, how often and in which order
+            ctx.count("access_logs_differ")
+            i = next((j for j, (x, y) in enumerate(zip(cnt_s[1], cnt[1])) if x != y), min(len(cnt_s[1]), len(cnt[1])))
+            more = "async" if len(cnt[1]) > len(cnt_s[1]) else "sync" if len(cnt_s[1]) > len(cnt[1]) else "order"
+            ctx.violation(f"data-access{vs}:{more}-differs@{origin}",
+                          f"item lookups differ from position {i}: sync {cnt_s[1][max(0, i - 2): i + 3]} async {cnt[1][max(0, i - 2): i + 3]} "
+                          f"({len(cnt_s[1])} vs {len(cnt[1])} lookups)", wit)
+        else:
+            ctx.count("access_logs_equal")
         if root:
             shutil.rmtree(root, ignore_errors=True)
 
@@ -626,7 +681,7 @@ def replay(wit: dict[str, Any], ctx: Ctx) -> None:
     try:
         op = wit["op"]
         if op == "render":
-            w.differential(wit["source"], wit["templates"], wit["data"], wit["kind"], "replay")
+            w.differential(wit["source"], wit["templates"], wit["data"], wit["kind"], "replay", wit.get("variant", "default"))
         elif op in ("get_template", "analyze"):
             w.template_ops(wit["templates"], wit["data"], wit["kind"])
         elif op == "schedule":
